@@ -213,6 +213,11 @@ func propCheck(c Case) string {
 		}
 		det := ratDet(toRat(as))
 		ss := structurallySingular(as)
+		if r.Kind == "panicsingular" {
+			// contract at HEAD (/repo 74e12ad; Props: gauss_jordan_nan_aware_trichotomy, singular exit = ErrSingular on
+			// BOTH paths): a singular system is reported by the error, the generic path no longer panics
+			return "singular system reported by a panic instead of the error \"system is computationally singular\" (both the fast and the generic path return the error since 74e12ad)"
+		}
 		if r.Kind != "ok" {
 			if det.Sign() != 0 && c.Tag != "illcond" {
 				return fmt.Sprintf("%s on a nonsingular matrix (exact det %s)", r.Kind, det.FloatString(6))
@@ -415,6 +420,9 @@ func propCheck32(a [][]float64, real bool) string {
 	}()
 	if err != nil {
 		kind = classifyErr(err)
+	}
+	if kind == "panicsingular" {
+		return "float32 inverse: singular system reported by a panic instead of the error \"system is computationally singular\" (both paths return the error since 74e12ad)"
 	}
 	if kind != "ok" {
 		if det.Sign() != 0 {
